@@ -2,6 +2,7 @@ package checks
 
 import (
 	"bytes"
+	"encoding/binary"
 	"encoding/json"
 	"fmt"
 	"sort"
@@ -37,10 +38,11 @@ type c13Grid struct {
 	Mode               string // cachepool | nocache | nopool
 	IKey               bool   // internal keys under the internal comparer
 	Bits               int    // bloom bits per key (0 = 10)
+	NoStrict           bool   // reader opened with opt.NoStrict (block checksums of data blocks not verified)
 }
 
 func (g c13Grid) String() string {
-	return fmt.Sprintf("bs%d/ri%d/snappy=%v/bloom=%v(%d)/lg%d/%s/ikey=%v", g.BlockSize, g.Restart, g.Snappy, g.Bloom, g.Bits, g.BaseLg, g.Mode, g.IKey)
+	return fmt.Sprintf("bs%d/ri%d/snappy=%v/bloom=%v(%d)/lg%d/%s/ikey=%v", g.BlockSize, g.Restart, g.Snappy, g.Bloom, g.Bits, g.BaseLg, g.Mode, g.IKey) + map[bool]string{true: "/nostrict", false: ""}[g.NoStrict]
 }
 
 type c13Task struct {
@@ -49,11 +51,13 @@ type c13Task struct {
 	To     int     `json:"to"`
 	Depth  int     `json:"depth"`  // movement depth
 	Damage bool    `json:"damage"` // alter every byte of the table
+	// FilterOnly restricts the damage to the filter block and its trailer
+	FilterOnly bool `json:"filter_only,omitempty"`
 }
 
 type c13Result struct {
-	Tables, Lookups, Seqs, Moves, Damaged, DamageDetected int
-	Viol                                                  []string
+	Tables, Lookups, Seqs, Moves, Damaged, DamageDetected, FilterDamaged int
+	Viol                                                                 []string
 }
 
 func c13Val(i int) string {
@@ -93,7 +97,43 @@ func c13Options(g c13Grid) (*opt.Options, comparer.Comparer) {
 		}
 	}
 	o.Comparer = cmp
+	if g.NoStrict {
+		o.Strict = opt.NoStrict
+	}
 	return o, cmp
+}
+
+// c13FilterExtent locates the filter block (with its 5-byte trailer) of an uncompressed-metaindex
+// table by reading the footer and the metaindex block; ok=false when there is none.
+func c13FilterExtent(data []byte) (off, end int, ok bool) {
+	if len(data) < 48 {
+		return
+	}
+	foot := data[len(data)-48:]
+	mo, n := binary.Uvarint(foot)
+	if n <= 0 {
+		return
+	}
+	ml, n2 := binary.Uvarint(foot[n:])
+	if n2 <= 0 || int(mo+ml) > len(data) || ml < 8 {
+		return
+	}
+	b := data[mo : mo+ml]
+	// first entry: shared, unshared, value length, key, value
+	sh, a := binary.Uvarint(b)
+	un, c := binary.Uvarint(b[a:])
+	vl, d := binary.Uvarint(b[a+c:])
+	p := a + c + d
+	if a <= 0 || c <= 0 || d <= 0 || sh != 0 || p+int(un)+int(vl) > len(b) || !bytes.HasPrefix(b[p:], []byte("filter.")) {
+		return
+	}
+	v := b[p+int(un) : p+int(un)+int(vl)]
+	fo, e := binary.Uvarint(v)
+	fl, f := binary.Uvarint(v[e:])
+	if e <= 0 || f <= 0 || int(fo+fl)+5 > len(data) {
+		return
+	}
+	return int(fo), int(fo+fl) + 5, true
 }
 
 type c13Table struct {
@@ -380,9 +420,21 @@ func runC13(t *c13Task) *c13Result {
 			}
 			continue
 		}
-		// damage: every byte before the footer, three patterns
+		// damage: every byte before the footer, three patterns. A damaged filter block may cost
+		// reads but not answers: every data block is intact, so the battery stays exact there.
 		n := len(tb.data) - 48
+		fo, fe, hasF := 0, 0, false
+		if !t.Grid.Snappy {
+			fo, fe, hasF = c13FilterExtent(tb.data)
+		}
+		if t.FilterOnly && !hasF {
+			continue
+		}
 		for off := 0; off < n; off++ {
+			inFilter := hasF && off >= fo && off < fe
+			if t.FilterOnly && !inFilter {
+				continue
+			}
 			for _, pat := range []byte{0x01, 0xff, 0} {
 				d := append([]byte(nil), tb.data...)
 				if pat == 0 {
@@ -404,8 +456,11 @@ func runC13(t *c13Task) *c13Result {
 					return res
 				}
 				before := res.Lookups
-				v := c13Battery(t.Grid, r, tb.pairs, 0, true, res)
+				v := c13Battery(t.Grid, r, tb.pairs, 0, !inFilter, res)
 				_ = before
+				if inFilter {
+					res.FilterDamaged++
+				}
 				r.Release()
 				if v != "" {
 					res.Viol = append(res.Viol, fmt.Sprintf("%v subset %#x byte %d pattern %#x: %s", t.Grid, mask, off, pat, v))
